@@ -27,6 +27,7 @@ def entropic_mirror_descent(loss_and_grad, x0, total, iters=250):
 
     for _ in range(iters):
         logQ = logP - alpha*dL
+        logQ -= logQ.max() # keeps the normalisation below accurate when the entries are huge
         logQ += np.log(total) - logsumexp(logQ)
         Q = np.exp(logQ)
         #Q = P * np.exp(-alpha*dL)
